@@ -96,7 +96,7 @@ def run(tier, seed, scale):
                 "class S: too few failed calls (constructor %d, allocation %d)" % (st.get("S_calls_failed_by_constructor", 0), st.get("S_calls_failed_by_allocation", 0)))
     chk.require(st.get("Salloc_scenarios", 0) + st.get("Salloc_wedged", 0) >= 3, "class Salloc was not exercised")
     chk.require(st.get("M_scenarios", 0) + st.get("M_wedged", 0) >= 3, "class M was not exercised")
-    chk.require(st.get("H_sizes_reached_ge_2^31", 0) >= (4 if q else 12) and st.get("H_sizes_reached_ge_2^32", 0) >= (2 if q else 6), "huge sizes were not reached (>=2^31: %d, >=2^32: %d)" % (st.get("H_sizes_reached_ge_2^31", 0), st.get("H_sizes_reached_ge_2^32", 0)))
+    chk.require(st.get("H_sizes_reached_ge_2^31", 0) >= ((4 if scale >= 1 else 3) if q else 12) and st.get("H_sizes_reached_ge_2^32", 0) >= (2 if q else 6), "huge sizes were not reached (>=2^31: %d, >=2^32: %d)" % (st.get("H_sizes_reached_ge_2^31", 0), st.get("H_sizes_reached_ge_2^32", 0)))
     if not q:
         chk.require(st.get("max_H_size_log2", 0) >= 36, "2^36 elements were not reached")
     chk.require(st.get("shadow_lookup_raced", 0) == 0 or chk.stats.get("shadow_lookup_raced", 0) < 100, "the construction-counter lookup raced with block publication too often (tsan variant)")
